@@ -20,6 +20,7 @@ def run(repo, run, tier):
     cache_key(repo, run)
     wrappers(repo, run)
     layout(repo, run)
+    fd_extrapolation(repo, run)
 
 
 # ------------------------------------------------------------------------------------------------
@@ -347,3 +348,185 @@ def layout(repo, run):
     if not okr:
         run.report("C16.4", UTL, rets[0] if rets else fn, "the non-flat result is not reshaped to (*output shape, *input shape): entry [i..., j...] would not be d out_i / d in_j",
                    text="estimate result reshape")
+
+
+# ------------------------------------------------------------------------------------------------
+def _exact_stencil(n, order=1):
+    """exact weights of the stencil on n equally spaced nodes in [-1, 1] defined by  sum_j w_j x_j^i = [i == order], i = 0..n-1  (what
+    get_finite_difference_weights solves numerically), and the exponents e >= 0 with a non-zero error term h^e in  sum_j w_j f(x + x_j h) / h - f'(x)"""
+    from fractions import Fraction
+    xs = [Fraction(-1) + Fraction(2 * j, n - 1) for j in range(n)]
+    M = [[x ** i for x in xs] + [Fraction(1 if i == order else 0)] for i in range(n)]
+    for c in range(n):                      # Gauss-Jordan over the rationals
+        piv = next(r for r in range(c, n) if M[r][c] != 0)
+        M[c], M[piv] = M[piv], M[c]
+        M[c] = [v / M[c][c] for v in M[c]]
+        for r in range(n):
+            if r != c and M[r][c] != 0:
+                M[r] = [a - M[r][c] * b for a, b in zip(M[r], M[c])]
+    w = [M[i][n] for i in range(n)]
+    exps = [k - 1 for k in range(n, n + 14) if sum(wj * x ** k for wj, x in zip(w, xs)) != 0]
+    return w, exps
+
+
+def fd_extrapolation(repo, run):
+    """'agrees with the analytic Jacobian to near the accuracy its tolerances request ... for all base orders': the tolerances are requested from a
+    Richardson tableau over finite-difference estimates; every column of that tableau has to remove the leading term of the error expansion of the
+    previous one, otherwise the tableau converges no faster than its first column and stops at the rounding floor of that column."""
+    from fractions import Fraction
+    from ..absint import Interp, Domain, OPAQUE
+    from .c01 import Exp, _frac, _Self
+    rid = run.rule("C16.6", "finite-difference Jacobian, for base orders 2..10 and 3..6 tableau rows: the stencil weights (exact rational solve of the system the code "
+                            "sets up) give an error expansion h^p, h^(p+2), ...; the entry returned by the (adaptive) Richardson tableau, interpreted over error "
+                            "expansions, has order p + 2*(its column): each extrapolation removes the leading error term", floor=20)
+    # the system the weights solve
+    g = repo.get(UTL, "get_finite_difference_weights")
+    run.analysed_fn(UTL, g)
+    from ..sym import inline_locals
+    c = Canon(env=inline_locals(g))
+    P = [a.arg for a in g.args.args]
+    texts = {}
+    for st in walk_no_nested(g):
+        if isinstance(st, ast.Assign) and isinstance(st.targets[0], ast.Name):
+            texts.setdefault(st.targets[0].id, []).append(st)
+    ok_nodes = any("linspace(-1, 1, %s" % P[1] in src(st.value).replace("D.ar_numpy.", "") for st in texts.get("nodal_points", []))
+    wm = texts.get("weight_matrix", [])
+    ok_mat = False
+    for st in wm:
+        lcs = [x for x in ast.walk(st.value) if isinstance(x, ast.ListComp)]
+        for lc in lcs:
+            gen = lc.generators[0]
+            if isinstance(gen.iter, ast.Call) and dotted(gen.iter.func) == "range" and "len(nodal_points)" in src(gen.iter) and isinstance(lc.elt, ast.Call) and \
+                    fname(lc.elt) in ("pow", "power") and src(lc.elt.args[1]) == src(gen.target) and "nodal_points" in src(lc.elt.args[0]):
+                ok_mat = True
+    ok_rhs = any(isinstance(st, ast.Assign) and isinstance(st.targets[0], ast.Subscript) and src(st.targets[0]) == "b_vector[%s]" % P[2] and
+                 isinstance(st.value, ast.Constant) and st.value.value == 1.0 for st in walk_no_nested(g))
+    ok_solve = any(isinstance(x, ast.Call) and fname(x) in ("solve_linear_system", "solve") and [src(a) for a in x.args[:2]] == ["weight_matrix", "b_vector"] for x in ast.walk(g))
+    oks = ok_nodes and ok_mat and ok_rhs and ok_solve
+    run.judged(rid, "weights solve  sum_j w_j x_j^i = [i == order]  on linspace(-1, 1, n): nodes %s matrix %s rhs %s solve %s" % (ok_nodes, ok_mat, ok_rhs, ok_solve), ok=oks)
+    if not oks:
+        run.report("C16.6", UTL, g, "get_finite_difference_weights no longer sets up the moment system  sum_j w_j x_j^i = [i == order]  on n equally spaced nodes in [-1, 1]: "
+                                    "the stencil is not the derivative stencil the Jacobian estimate assumes", text="finite-difference moment system")
+        return
+    cls = "JacobianWrapper"
+    init = repo.get(UTL, cls + ".__init__")
+    call = [x for x in ast.walk(init) if isinstance(x, ast.Call) and fname(x) == "get_finite_difference_weights"]
+    ok_call = len(call) == 1 and len(call[0].args) >= 2 and src(call[0].args[1]) == "self.base_order" and {k.arg: src(k.value) for k in call[0].keywords}.get("order", "1") == "1"
+    run.judged(rid, "JacobianWrapper asks for the first-derivative stencil on base_order nodes", ok=ok_call)
+    if not ok_call:
+        run.report("C16.6", UTL, init, "JacobianWrapper does not request the first-derivative stencil on `base_order` nodes", text="stencil request")
+        return
+
+    class Dom(Domain):
+        def __init__(self, n, R, exps):
+            self.n, self.R, self.exps = n, R, exps
+
+        def attribute(self, obj, attr, node, interp):
+            if isinstance(obj, _Self):
+                if attr == "base_order":
+                    return self.n
+                if attr == "richardson_iter":
+                    return self.R
+            return NotImplemented
+
+        def store_attribute(self, obj, attr, val, node, interp):
+            return True
+
+        def call(self, name, node, args, kwargs, interp):
+            if name == "self.estimate":
+                dy = kwargs.get("dy")
+                f = _frac(dy)
+                if f is None:
+                    raise AnalysisError("estimate() called with a step the calculus cannot follow: %s" % src(node)[:80])
+                return Exp(1, {e: f ** e for e in self.exps})
+            if name == "self.check_converged":
+                return (OPAQUE, OPAQUE)
+            return NotImplemented
+
+        def binop(self, op, a, b, node):
+            ea, eb = isinstance(a, Exp), isinstance(b, Exp)
+            if not (ea or eb):
+                fa, fb = _frac(a), _frac(b)
+                if fa is not None and fb is not None and isinstance(op, ast.Pow):
+                    try:
+                        if fb.denominator == 1:
+                            return fa ** int(fb)
+                    except (OverflowError, ZeroDivisionError):
+                        return OPAQUE
+                return NotImplemented
+            if ea and eb:
+                if isinstance(op, ast.Add):
+                    return a.lin(b, 1, 1)
+                if isinstance(op, ast.Sub):
+                    return a.lin(b, 1, -1)
+                return OPAQUE
+            x, k = (a, _frac(b)) if ea else (b, _frac(a))
+            if k is None:
+                return OPAQUE
+            if isinstance(op, ast.Mult):
+                return x.scale(k)
+            if isinstance(op, ast.Div) and ea and k != 0:
+                return x.scale(1 / k)
+            return OPAQUE
+    failing = []
+    n_j = 0
+    for meth in ("adaptive_richardson", "richardson"):
+        fn = repo.get(UTL, cls + "." + meth)
+        run.analysed_fn(UTL, fn)
+        params = [a.arg for a in fn.args.args]
+        kwdefaults = {a.arg: d for a, d in zip(fn.args.kwonlyargs, fn.args.kw_defaults)}
+        for n in range(2, 11):
+            w, exps = _exact_stencil(n)
+            p = exps[0]
+            for R in (3, 4, 5, 6):
+                dom = Dom(n, R, exps[:R + 2])
+                it = Interp(dom, max_paths=256)
+                args = {params[0]: _Self()}
+                for a in params[1:]:
+                    args[a] = OPAQUE
+                for k, d in kwdefaults.items():
+                    try:
+                        args[k] = ast.literal_eval(d)
+                    except Exception:
+                        args[k] = OPAQUE
+                args.setdefault("args", ())
+                args.setdefault("kwargs", {})
+                worst = None
+                npaths = 0
+                for outcome, val, _ in it.all_paths(fn, args):
+                    npaths += 1
+                    if outcome != "return":
+                        continue
+                    A = it.env.get("A")
+                    if not isinstance(val, Exp) or not isinstance(A, list):
+                        raise AnalysisError("%s: the returned value is not an entry of the tableau the calculus can follow" % meth)
+                    col = None
+                    for row in A:
+                        for j, v in enumerate(row):
+                            if v is val:
+                                col = j
+                    if col is None:
+                        raise AnalysisError("%s: the returned value is not an entry of the tableau" % meth)
+                    o = val.order()
+                    o = 10 ** 6 if o is None else o
+                    need = p + 2 * col
+                    if val.one != 1 or o < need:
+                        if worst is None or o - need < worst[0] - worst[1]:
+                            worst = (o, need, col, val.one)
+                n_j += 1
+                run.judged(rid, "%s base_order=%d (p=%d) rows=%d: paths=%d %s" % (meth, n, p, R, npaths, "ok" if worst is None else "returned entry of column %d has order %d < %d" % (worst[2], worst[0], worst[1])),
+                           ok=worst is None)
+                if worst is not None:
+                    failing.append((meth, n, p, R, worst[2], worst[0], worst[1]))
+    for meth in ("adaptive_richardson", "richardson"):
+        fl = [f for f in failing if f[0] == meth]
+        if fl:
+            fn = repo.get(UTL, cls + "." + meth)
+            rec = [st for st in ast.walk(fn) if isinstance(st, ast.Expr) and isinstance(st.value, ast.Call) and isinstance(st.value.func, ast.Attribute) and st.value.func.attr == "append"
+                   and any(isinstance(x, ast.BinOp) and isinstance(x.op, ast.Div) for x in ast.walk(st.value))]
+            ex = [(n, R, col, o, need) for (_, n, p, R, col, o, need) in fl[:5]]
+            run.report("C16.6", UTL, rec[-1] if rec else fn, "JacobianWrapper.%s: the extrapolation weights do not remove the leading error term of the finite-difference estimate for "
+                                                            "%d of %d (base order, rows) combinations, e.g. %s (format: base order, rows, column of the returned entry, its order, "
+                                                            "order required): the Jacobian converges no faster than the raw stencil and stalls at its rounding floor, far from the "
+                                                            "requested tolerance" % (meth, len(fl), n_j // 2, ex),
+                       text="%s extrapolation weights: base orders failing %s" % (meth, sorted({f[1] for f in fl})))
